@@ -77,7 +77,9 @@ def gen_plan(verif_seed, run, vle_full_every=10):
         if op["fn"] in ("fit", "find_best_fit"):
             k = op["args"]["data"]["$"][1]
             op["loss_on"] = k
-            op["grid"] = hist.grid(o, 4)
+            if "grid" not in op:          # a repeated call keeps its grid: it is the *same* call
+                op["grid"] = hist.grid(o, 4)
+            op.pop("check_best", None)
             a = op["args"]
             if op["fn"] == "find_best_fit" and "n" in a and "m" in a and a.get("component_index", 0) in (0, 1) \
                     and (a["n"] + 1) * (a["m"] + 1) <= 12 and best_budget > 0:
